@@ -54,7 +54,7 @@ BUDGET_S = {'quick': 120, 'thorough': 1500}
 def bounds(tier):
     return {'integrands': len(INTEGRANDS), 'bounds': len(BOUNDS), 'rule_instances': 'Simplify FullSimplify Linearity ExpandPolynomial DefiniteIntegralIdentity; %d substitutions; %d inverse substitutions; '
             '%d by-parts pairs; %d split points; %d rewrites; 4 compound contexts; 2-step chains; ExpandPolynomial on 4 bases ^2..9; derivatives of 11 integrals with variable limits; 72 roots of monomials with constant factors' % (len(SUBSTS), len(INV_SUBSTS), len(PARTS), len(SPLITS), len(REWRITES)),
-            'normalize_deriv_bounds_exprs': 'grammar depth 3 over x a constants + - * / ^k sqrt abs: %d seeded' % (300 if tier == 'quick' else 6000),
+            'normalize_deriv_bounds_exprs': 'grammar depth 3 over x a constants + - * / ^k sqrt abs, every second one also with sin cos tan cot sec csc exp log atan asin acos (uninterpreted + sin^2+cos^2=1): %d seeded' % (300 if tier == 'quick' else 6000),
             'parameters': 'symbolic reals (a > 0, b > a)', 'z3_timeout_ms': 6000}
 
 
@@ -86,6 +86,7 @@ class ZEval:
         self.defd = []      # definedness conditions of the evaluated expressions
         self.params = {}
         self.naux = 0
+        self.uf_used = False
 
     def param(self, name):
         if name not in self.params:
@@ -110,8 +111,12 @@ class ZEval:
             raise Unsup('power %s' % q)
         t = z3.Real('root%d' % self.naux)
         self.naux += 1
-        self.side += [t >= 0, self.ipow(t, q.denominator) == self.ipow(b, abs(q.numerator))]
-        self.defd.append(b >= 0)
+        if q.denominator % 2 == 1:
+            # odd root: defined for every real base, sign of the base (times parity of the numerator) is kept
+            self.side += [self.ipow(t, q.denominator) == self.ipow(b, abs(q.numerator))]
+        else:
+            self.side += [t >= 0, self.ipow(t, q.denominator) == self.ipow(b, abs(q.numerator))]
+            self.defd.append(b >= 0)
         if q > 0:
             return t
         self.defd.append(b != 0)
@@ -150,7 +155,7 @@ class ZEval:
             if e.func_name == 'abs' and len(e.args) == 1:
                 x = self.val(e.args[0], env)
                 return z3.If(x >= 0, x, -x)
-            raise Unsup('function ' + e.func_name)
+            return self.transcendental(e, env)
         if e.is_integral():
             lo, hi = self.val(e.lower, env), self.val(e.upper, env)
             env2 = {k: v for k, v in env.items() if k != e.var}
@@ -172,6 +177,47 @@ class ZEval:
             lo, hi = self.val(e.lower, env), self.val(e.upper, env)
             return self.val(e.body, dict(env, **{e.var: hi})) - self.val(e.body, dict(env, **{e.var: lo}))
         raise Unsup('expression kind %s' % type(e).__name__)
+
+    def uf(self, name, x):
+        """Transcendental functions are *uninterpreted* (plus sin^2 + cos^2 = 1 at every argument used): an `unsat` answer
+        (equal under every interpretation) is sound; a model is only a candidate and must be confirmed numerically."""
+        self.uf_used = True
+        f = z3.Function('uf_' + name, z3.RealSort(), z3.RealSort())
+        return f(x)
+
+    def transcendental(self, e, env):
+        n = e.func_name
+        if n == 'pi' and not e.args:
+            self.uf_used = True
+            p = z3.Real('const_pi')
+            self.side += [p > z3.RealVal('3.14159'), p < z3.RealVal('3.1416')]
+            return p
+        if len(e.args) != 1:
+            raise Unsup('function ' + n)
+        x = self.val(e.args[0], env)
+        if n in ('sin', 'cos', 'tan', 'cot', 'sec', 'csc'):
+            sn, cs = self.uf('sin', x), self.uf('cos', x)
+            self.side.append(sn * sn + cs * cs == 1)
+            if n == 'sin':
+                return sn
+            if n == 'cos':
+                return cs
+            den = cs if n in ('tan', 'sec') else sn
+            self.defd.append(den != 0)
+            return {'tan': sn / cs, 'cot': cs / sn, 'sec': 1 / cs, 'csc': 1 / sn}[n]
+        if n == 'log':
+            self.defd.append(x > 0)
+            return self.uf('log', x)
+        if n == 'exp':
+            y = self.uf('exp', x)
+            self.side.append(y > 0)
+            return y
+        if n in ('asin', 'acos'):
+            self.defd += [x > -1, x < 1]
+            return self.uf(n, x)
+        if n in ('atan', 'acot', 'sinh', 'cosh', 'tanh'):
+            return self.uf(n, x)
+        raise Unsup('function ' + n)
 
     def coeffs(self, e, var, env):
         """e as a generalised polynomial in var: {exponent (Fraction): z3 coefficient}."""
@@ -233,6 +279,37 @@ class ZEval:
         return {'>': x > y, '<': x < y, '>=': x >= y, '<=': x <= y, '=': x == y, '!=': x != y}[c.op]
 
 
+def loses_definedness(before, after, conds, extra=None, timeout=4000):
+    """Parameter values (as in compare) at which `before` is defined and `after` is not, or None."""
+    ev = ZEval()
+    try:
+        ev.val(before, {})
+        n1, s1 = len(ev.defd), len(ev.side)
+        ev.val(after, {})
+        cs = [ev.cond(c, {}) for c in conds] + ([ev.cond(c, {}) for c in extra] if extra else [])
+    except Unsup:
+        return None
+    if len(ev.defd) == n1:
+        return None
+    s = z3.Solver()
+    s.set('timeout', timeout)
+    # auxiliary roots of `after` are only constrained when their radicand is admissible, so they cannot block the query
+    for g in ev.side[:s1] + ev.defd[:n1] + cs:
+        s.add(g)
+    s.add(z3.Not(z3.And(ev.defd[n1:])))
+    if str(s.check()) != 'sat':
+        return None
+    m = s.model()
+    vals = {}
+    for n, p in ev.params.items():
+        v = m.eval(p, model_completion=True)
+        try:
+            vals[n] = str(Fraction(v.numerator_as_long(), v.denominator_as_long()))
+        except Exception:
+            return None
+    return vals
+
+
 def compare(before, after, conds, extra=None, timeout=6000):
     """-> ('equal'|'differ'|'unknown'|'outside', info)."""
     ev = ZEval()
@@ -255,8 +332,21 @@ def compare(before, after, conds, extra=None, timeout=6000):
         return 'equal', None
     if r == 'sat':
         m = s.model()
-        vals = {}
+        if ev.uf_used:
+            # prefer a model with the parameters at generic points (the uninterpreted functions say nothing about poles or zeros)
+            for lo_, hi_ in (('1/3', '5/4'), ('-5/4', '-1/3'), ('3/2', '3')):
+                s.push()
+                for p in ev.params.values():
+                    s.add(p > z3.RealVal(lo_), p < z3.RealVal(hi_))
+                if str(s.check()) == 'sat':
+                    m = s.model()
+                    s.pop()
+                    break
+                s.pop()
+        vals = {'__uf__': True} if ev.uf_used else {}
         for n, p in ev.params.items():
+            if n.startswith('__'):
+                continue
             v = m.eval(p, model_completion=True)
             try:
                 vals[n] = str(Fraction(v.numerator_as_long(), v.denominator_as_long()))
@@ -280,13 +370,21 @@ def feval(e, env):
             return -feval(e.args[0], env)
         x, y = feval(e.args[0], env), feval(e.args[1], env)
         if e.op == '^':
-            return x ** y if not (x < 0 and y != int(y)) else float('nan')
+            if x < 0 and y != int(y):
+                q = Fraction(e.args[1].val) if e.args[1].is_const() else None
+                if q is not None and q.denominator % 2 == 1:
+                    r = (-x) ** float(q)          # odd root of a negative number: real
+                    return r if q.numerator % 2 == 0 else -r
+                return float('nan')
+            return x ** y
         return {'+': lambda: x + y, '-': lambda: x - y, '*': lambda: x * y, '/': lambda: x / y}[e.op]()
     if e.is_fun():
         a = [feval(x, env) for x in e.args]
         if e.func_name == 'pi':
             return math.pi
-        return {'sqrt': math.sqrt, 'abs': abs, 'exp': math.exp, 'log': math.log, 'sin': math.sin, 'cos': math.cos, 'tan': math.tan, 'atan': math.atan}[e.func_name](*a)
+        return {'sqrt': math.sqrt, 'abs': abs, 'exp': math.exp, 'log': math.log, 'sin': math.sin, 'cos': math.cos, 'tan': math.tan, 'atan': math.atan,
+                'cot': lambda t: math.cos(t) / math.sin(t), 'sec': lambda t: 1 / math.cos(t), 'csc': lambda t: 1 / math.sin(t), 'asin': math.asin, 'acos': math.acos,
+                'sinh': math.sinh, 'cosh': math.cosh, 'tanh': math.tanh, 'acot': lambda t: math.pi / 2 - math.atan(t)}[e.func_name](*a)
     if e.is_integral():
         lo, hi = feval(e.lower, env), feval(e.upper, env)
         return float(mpmath.quad(lambda t: feval(e.body, dict(env, **{e.var: float(t)})), [lo, hi]))
@@ -298,6 +396,8 @@ def feval(e, env):
 def numeric_differs(before, after, vals):
     env = {}
     for k, v in vals.items():
+        if k.startswith('__'):
+            continue
         try:
             env[k] = float(Fraction(v))
         except Exception:
@@ -370,13 +470,35 @@ def apply_rule(rule, e, ctx):
     return 'ok', res
 
 
-def judge_step(label, before, after, out, rec, extra_conds=None):
+def judge_step(label, before, after, out, rec, extra_conds=None, definedness=False):
     """SMT comparison of one step; appends a counterexample record when they can differ."""
     ctx = _S['ctx']
-    st, info = compare(before, after, ctx.get_conds().data if hasattr(ctx.get_conds(), 'data') else list(ctx.get_conds()), extra_conds)
+    conds = ctx.get_conds().data if hasattr(ctx.get_conds(), 'data') else list(ctx.get_conds())
+    st, info = compare(before, after, conds, extra_conds)
     out['stats'][st] = out['stats'].get(st, 0) + 1
     if st == 'equal':
         out['keys'].add('%s|%s' % (label, before))
+        # loss of definedness is judged for normalisation only; for rules with user-chosen parameters (a split point outside
+        # the interval, a substitution with a pole inside it) it is outside the claim
+        vals = loses_definedness(before, after, conds, extra_conds) if definedness else None
+        if vals is not None:
+            # confirm numerically: before has a real value there, after has none
+            env = {k: float(Fraction(v)) for k, v in vals.items()}
+            try:
+                x = feval(before, env)
+                okb = x == x and abs(x) != float('inf')
+            except Exception:
+                okb = False
+            try:
+                y = feval(after, env)
+                oka = not (y == y) or isinstance(y, complex)
+            except (ValueError, ZeroDivisionError):
+                oka = True
+            except Exception:
+                oka = False
+            if okb and oka:
+                out['cex'].append(dict(rec, kind='step-loses-definedness:' + label.split('(')[0], sig='%s|%s' % (label, before), before=str(before),
+                                       detail='%s on %s returns %s, which has no real value at %s although the input evaluates to %.9g there' % (label, before, after, vals, x)))
     elif st == 'unknown':
         out['inconclusive'] += 1
     elif st == 'differ':
@@ -539,7 +661,7 @@ def run_rules(u, out):
 
 # ------------------------------------------------------------------ parts N, D, B: expression grammar
 
-def gen_expr(rnd, depth):
+def gen_expr(rnd, depth, trans=False):
     E = _S['expr']
     x, a = E.Var('x'), E.Var('a')
     leaves = [x, x, a, E.Const(0), E.Const(1), E.Const(2), E.Const(Fraction(1, 2)), E.Const(-1), E.Const(3)]
@@ -547,7 +669,9 @@ def gen_expr(rnd, depth):
     def g(d):
         if d == 0 or rnd.random() < 0.25:
             return rnd.choice(leaves)
-        k = rnd.choice(['+', '-', '*', '/', '^', 'neg', 'sqrt', 'abs', '+', '*'])
+        k = rnd.choice(['+', '-', '*', '/', '^', 'neg', 'sqrt', 'abs', '+', '*'] + (['fun', 'fun', 'fun'] if trans else []))
+        if k == 'fun':
+            return E.Fun(rnd.choice(TRANS[:12]), g(d - 1))
         if k == 'neg':
             return E.Op('-', g(d - 1))
         if k == '^':
@@ -556,6 +680,9 @@ def gen_expr(rnd, depth):
             return E.Fun(k, g(d - 1))
         return E.Op(k, g(d - 1), g(d - 1))
     return g(depth)
+
+
+TRANS = ['sin', 'cos', 'tan', 'cot', 'sec', 'csc', 'exp', 'log', 'atan', 'asin', 'acos', 'acot', 'sinh', 'cosh']
 
 
 def my_deriv(e, var):
@@ -590,6 +717,17 @@ def my_deriv(e, var):
         return E.Op('/', my_deriv(e.args[0], var), E.Op('*', C(2), e))
     if e.is_fun() and e.func_name == 'abs':
         return E.Op('*', my_deriv(e.args[0], var), E.Op('/', e.args[0], e))
+    if e.is_fun() and len(e.args) == 1 and e.func_name in TRANS:
+        u = e.args[0]
+        du = my_deriv(u, var)
+        F = lambda n, t=u: E.Fun(n, t)
+        one, two = C(1), C(2)
+        d = {'sin': lambda: F('cos'), 'cos': lambda: E.Op('-', F('sin')), 'tan': lambda: E.Op('^', F('sec'), two), 'cot': lambda: E.Op('-', E.Op('^', F('csc'), two)),
+             'sec': lambda: E.Op('*', F('sec'), F('tan')), 'csc': lambda: E.Op('-', E.Op('*', F('csc'), F('cot'))), 'exp': lambda: F('exp'), 'log': lambda: E.Op('/', one, u),
+             'atan': lambda: E.Op('/', one, E.Op('+', one, E.Op('^', u, two))), 'asin': lambda: E.Op('/', one, E.Fun('sqrt', E.Op('-', one, E.Op('^', u, two)))),
+             'acos': lambda: E.Op('-', E.Op('/', one, E.Fun('sqrt', E.Op('-', one, E.Op('^', u, two))))),
+             'acot': lambda: E.Op('-', E.Op('/', one, E.Op('+', one, E.Op('^', u, two)))), 'sinh': lambda: F('cosh'), 'cosh': lambda: F('sinh')}[e.func_name]()
+        return E.Op('*', d, du)
     raise Unsup('derivative of %s' % e)
 
 
@@ -603,6 +741,19 @@ def kinks(e):
     for sub in (e.args if (e.is_op() or e.is_fun()) else []):
         out += kinks(sub)
     return out
+
+
+def somewhere_defined(e):
+    """False only when z3 shows that e is undefined for every value of its variables (e.g. division by abs(0))."""
+    ev = ZEval()
+    try:
+        ev.val(e, {})
+    except Unsup:
+        return True
+    s = z3.Solver()
+    s.set('timeout', 3000)
+    s.add(ev.side + ev.defd)
+    return str(s.check()) != 'unsat'
 
 
 def idem_shape(ne, ne2):
@@ -630,7 +781,7 @@ def run_exprs(u, out):
     from vlib.symx import call_with_budget, NonTermination
     fixed = [_S['P'](t) for t in DERIV_EXTRA + ROOTS] if lo == 0 else []
     for k in range(n + len(fixed)):
-        e = fixed[k] if k < len(fixed) else gen_expr(rnd, 3)
+        e = fixed[k] if k < len(fixed) else gen_expr(rnd, 3, trans=(k % 2 == 1))      # every second expression uses transcendental functions
         rec = {'part': 'exprs', 'seed': seed, 'lo': lo, 'k': k}
         roundtrip(e, out, rec)
         # N: normalisation
@@ -643,8 +794,11 @@ def run_exprs(u, out):
             if ne is not None and len(out['cex']) < 2:
                 out['cex'].append(dict(rec, kind='twin'))
             continue
+        if ne is not None and not somewhere_defined(e):
+            out['stats']['nowhere_defined'] = out['stats'].get('nowhere_defined', 0) + 1
+            ne = None
         if ne is not None:
-            judge_step('normalize', e, ne, out, dict(rec, what='normalize'))
+            judge_step('normalize', e, ne, out, dict(rec, what='normalize'), definedness=True)
             try:
                 ne2 = call_with_budget(poly.normalize, 20.0, ne, conds)
                 if ne2 != ne:
